@@ -75,16 +75,29 @@ fn main() {
                 explore_sizes!(sc, w, tot, 0, 1, 2, 3, 4);
             }
             let mut gt = 0usize;
-            gt += t1::grid::<5>(&mut w) + t1::grid::<6>(&mut w) + t1::grid::<7>(&mut w) + t1::grid::<8>(&mut w);
-            gt += t1::grid::<16>(&mut w);
-            if thorough {
-                gt += t1::grid::<32>(&mut w) + t1::grid::<64>(&mut w);
+            for v in 0..2 {
+                gt += t1::grid::<5>(v, &mut w) + t1::grid::<6>(v, &mut w) + t1::grid::<7>(v, &mut w) + t1::grid::<8>(v, &mut w);
+                gt += t1::grid::<9>(v, &mut w) + t1::grid::<16>(v, &mut w) + t1::grid::<17>(v, &mut w);
             }
-            eprintln!("STAT t1_grid transitions={} sizes=5,6,7,8,16{}", gt, if thorough { ",32,64" } else { "" });
+            gt += t1::grid::<32>(1, &mut w) + t1::grid::<33>(2, &mut w) + t1::grid::<64>(0, &mut w);
+            if thorough {
+                gt += t1::grid::<32>(0, &mut w) + t1::grid::<64>(1, &mut w) + t1::grid::<64>(2, &mut w) + t1::grid::<128>(1, &mut w);
+            }
+            // large buffers (block-size thresholds): every (ri, wi) near the ends, strided in the middle, lengths that are multiples of 8/16/32 included
+            gt += t1::grid_lite::<96>(true, &mut w) + t1::grid_lite::<130>(thorough, &mut w) + t1::grid_lite::<200>(thorough, &mut w);
+            if thorough {
+                gt += t1::grid_lite::<255>(true, &mut w);
+            }
+            // long frames: one terminator near the end of a nearly full buffer
+            for (pos, term) in [(31usize, &b"\n"[..]), (32, b"\r\n"), (40, b"\0"), (55, b"\n"), (46, b"\r\n")] {
+                gt += t1::grid_df::<48>(pos.min(46), term, &mut w) + t1::grid_df::<64>(pos, term, &mut w);
+            }
+            gt += t1::grid_df::<33>(31, b"\n", &mut w) + t1::grid_df::<33>(24, b"\r\n", &mut w) + t1::grid_df::<40>(33, b"\0", &mut w);
+            eprintln!("STAT t1_grid transitions={} sizes=5,6,7,8,9,16,17,32,33,64{} content_variants=3 long_frame_grids=13", gt, if thorough { ",128" } else { "" });
             let mut rng = Rng(seed);
             let mut wt = 0usize;
-            let (walks, steps) = if thorough { (60, 400) } else { (6, 150) };
-            walk_sizes!(rng, walks, steps, w, wt, 4, 7, 8, 16, 64, 255);
+            let (walks, steps) = if thorough { (120, 400) } else { (30, 250) };
+            walk_sizes!(rng, walks, steps, w, wt, 4, 7, 8, 16, 32, 33, 64, 255);
             walk_sizes!(rng, (walks / 6).max(1), steps / 2, w, wt, 4096);
             eprintln!("STAT t1_total states={} transitions={} capped={} walk_transitions={}", tot.0, tot.1, tot.2, wt);
         }
